@@ -708,6 +708,9 @@ var raceSite = regexp.MustCompile(`(?m)^\s+(github\.com/crewjam/saml[^\s(]*)\.([
 func c20RacePass(t *core.T, c *core.Ctx) {
 	t.NonTrivial()
 	bin := "/verif/bin/racepass"
+	if b := os.Getenv("VERIF_RACEPASS_BIN"); b != "" {
+		bin = b
+	}
 	if _, err := os.Stat(bin); err != nil {
 		t.Fail("C20/harness/racepass-missing", "bin/racepass was not built (run through ./run.sh C20)")
 		return
